@@ -258,5 +258,7 @@ _also("C16", "the five provision wrappers are reliable awaited round trips; the 
 _also("C19", "get_log_files selects by name, never by position in the directory listing (take_while/skip/take/truncate ..), so archives "
              "of a shared log folder are always candidates for deletion.")
 for _p in list(META):
-    META[_p]["note"] += (" Functions absent from known_fns.txt (new helpers, sync or async awaited at once) are analysed in place at "
-                         "their call sites; Option/Result combinators taking a closure are read through (DESIGN §7).")
+    META[_p]["note"] += (" Before the rules run the tree is normalised against the confirmed tree (renamed functions recognised by "
+                         "signature, new helpers and local closures analysed in place, Option/Result combinators written out, loops over "
+                         "array literals / constant tables unrolled; DESIGN §7) - these passes are trusted to preserve meaning and do "
+                         "nothing on the unchanged tree.")
